@@ -91,6 +91,9 @@ FIXED = [
  ("C20", "aac71a7", "yara ignored a rejected -d definition (unknown identifier, wrong type) unless it came last, and went on scanning with exit status 0 after `error: wrong syntax for -d`"),
  ("C16", "dd732fd", "yr_object_set_string released the old value before allocating the new one: a scanner-level string definition that failed with ERROR_INSUFFICIENT_MEMORY left the variable undefined instead of unchanged"),
  ("C20", "88be514", "yr_scanner_define_string_variable(scanner, id, NULL) crashed in strlen(NULL) where the compiler and rule-set levels return ERROR_INVALID_ARGUMENT"),
+ ("C16", "6304e98", "the parser ignored the result of 13 code-emitting calls (N of / N% of / in / at / not / defined / set markers / all-any-none, and the anonymous `$` of a for-of body): when the code buffer could not grow at that instruction compilation reported success with the instruction missing (assertions in yr_execute_code, ERROR_INTERNAL_FATAL_ERROR from every scan)"),
+ ("C16", "8815d6e", "NULL dereference (strncmp) in yr_parser_emit_pushes_for_rules over a rule whose declaration had failed half-way for lack of memory"),
+ ("C08", "c8fe739", "yr_rules_save ignored the result of fclose: a write error that surfaces only at flush time (disk full, buffered stdio) was reported as ERROR_SUCCESS for a file that does not load"),
  ("C18", "cli-culprit-fix", "yara CLI printed `string \"$x\" in rule \"r\" caused could not open file` for an unreadable file after an earlier file on the same thread had hit a limit"),
 ]
 
